@@ -124,6 +124,22 @@ UNIT = Unit(
                "ensures __rf0 is None ==> forall|j: int| 0 <= j < self.0@.len() ==> (#[trigger] self.0@[j]).0.0@ != key.0@,\n"
                "  __rf0 matches Some(id) ==> (__rk0 < self.0@.len() && self.0@[__rk0 as int].0.0@ == key.0@ && self.0@[__rk0 as int].1 == id),\n"
                "decreases __rk0,")),
+        Fn(file=N, name="resolve_expr", container=NR, as_method_of=NR, rename="path_constructor_gate", ret="r", rules=["attrs", "let_chain", "opt_is_some_and"],
+           cut_from="ast::Expr::EPath { path, astptr } => {", cut_inside=True, cut_before="if path.len() == 1 {", cut_tail="    None",
+           sig="pub fn path_constructor_gate(&mut self, path: &ast::Path, astptr: &ast::MySyntaxNodePtr, env: &mut ResolveLocalEnv, ctx: &ResolutionContext, hir_table: &mut HirTable) -> Option<hir::ExprId>",
+           rewrites=[(re.compile(r"return (self\.alloc_expr_with_ptr\((?:[^;]|\n)*?\));", re.S), r"return Some(\1);", "*"), ("args: Vec::new(),", "args: Vec::<hir::ExprId>::new(),", "*")],
+           obligation="a one-segment path that names a binder in scope is never taken for the constructor of the same name (C05: a use refers to the innermost "
+                      "enclosing binder — parameter, let, pattern variable, closure parameter)",
+           contract="""ensures final(env).0@ == old(env).0@,
+            forall|n: Seq<char>| path.is_ident(n) && (exists|k: int| 0 <= k < old(env).0@.len() && (#[trigger] old(env).0@[k]).0.0@ == n) ==> r is None,"""),
+        Fn(file=N, name="resolve_expr", container=NR, as_method_of=NR, rename="constr_local_gate", ret="r", rules=["attrs", "let_chain", "opt_is_some_and"],
+           cut_from="ast::Expr::EConstr {\n                constructor,\n                args,\n                astptr,\n            } => {", cut_inside=True,
+           cut_before=re.compile(r"let new_args = args").pattern, cut_tail="    None",
+           sig="pub fn constr_local_gate(&mut self, constructor: &ast::Path, args: &Vec<ast::Expr>, astptr: &ast::MySyntaxNodePtr, env: &mut ResolveLocalEnv, ctx: &ResolutionContext, hir_table: &mut HirTable) -> Option<hir::ExprId>",
+           rewrites=[(re.compile(r"return (self\.resolve_expr\(&as_path, env, ctx, hir_table\));"), r"return Some(\1);", "*"), ("constructor.clone()", "path_clone(constructor)", "*")],
+           obligation="the lowering's form of a bare identifier that is also a constructor name (`EConstr` without arguments, one segment) is resolved as a plain "
+                      "name when a binder of that name is in scope — the local wins there too",
+           contract="""ensures forall|n: Seq<char>| constructor.is_ident(n) && args@.len() == 0 && (exists|k: int| 0 <= k < old(env).0@.len() && (#[trigger] old(env).0@[k]).0.0@ == n) ==> r is Some,"""),
         Fn(file=N, name="resolve_expr", container=NR, as_method_of=NR, rename="resolve_ident_use", ret="r",
            cut_from="let name_str = &ident.0;", cut_before="@block-end", cut_tail="",
            sig=f"pub fn resolve_ident_use(&mut self, ident: &ast::AstIdent, astptr: &ast::MySyntaxNodePtr, {ARGS}",
